@@ -63,6 +63,30 @@ pub fn lease_port() -> Result<PortLease, String> {
     Err("no free port found".into())
 }
 
+/// One of `slots` host-wide tokens (flock on /verif/out/slots/<name>-<k>); held until the file is dropped. Used to keep
+/// CPU-hungry plans (open-loop floods) from running in more worker processes at once than the machine has cores for —
+/// a flood whose sender threads are time-sliced has gaps, and the behaviour under a gapless flood is the point.
+/// After `patience` without a free slot the plan runs anyway (None).
+pub fn host_slot(name: &str, slots: usize, patience: Duration) -> Option<std::fs::File> {
+    use std::os::unix::io::AsRawFd;
+    let dir = PathBuf::from("/verif/out/slots");
+    let _ = std::fs::create_dir_all(&dir);
+    let end = Instant::now() + patience;
+    loop {
+        for k in 0..slots {
+            if let Ok(f) = std::fs::OpenOptions::new().create(true).write(true).open(dir.join(format!("{}-{}", name, k))) {
+                if unsafe { libc::flock(f.as_raw_fd(), libc::LOCK_EX | libc::LOCK_NB) } == 0 {
+                    return Some(f);
+                }
+            }
+        }
+        if Instant::now() > end {
+            return None;
+        }
+        std::thread::sleep(Duration::from_millis(25));
+    }
+}
+
 #[derive(Debug, Clone, Default)]
 pub struct SrvCfg {
     pub seed_hex: String,
@@ -73,6 +97,8 @@ pub struct SrvCfg {
     pub status_interval: Option<u32>,
     pub client_stats: bool,
     pub via_env: bool,
+    /// health_check_port is written with the same number as `port` (TCP and UDP port spaces are separate)
+    pub health_same_port: bool,
     /// raw extra settings (key, value) appended as written
     pub extra: Vec<(String, String)>,
     /// extra environment variables for the server process (not settings), e.g. TZ
@@ -142,7 +168,9 @@ impl ServerProc {
         let lease = lease_port()?;
         let port = lease.port;
         let mut leases = vec![lease];
-        let hc = if cfg.health {
+        let hc = if cfg.health && cfg.health_same_port {
+            Some(port)
+        } else if cfg.health {
             let l = lease_port()?;
             let p = l.port;
             leases.push(l);
@@ -224,6 +252,34 @@ impl ServerProc {
         }
     }
 
+    /// like wait_ready, but polls every millisecond from ONE socket (so only one worker of the SO_REUSEPORT group ever
+    /// has probe datagrams queued; the others stay untouched) and returns at the first response
+    pub fn wait_first_response(&mut self, deadline: Duration) -> Result<(), String> {
+        let end = Instant::now() + deadline;
+        let mut k = 0u32;
+        let mut buf = [0u8; 4096];
+        let sock = UdpSocket::bind("127.0.0.1:0").map_err(|e| e.to_string())?;
+        sock.set_nonblocking(true).unwrap();
+        loop {
+            if !self.alive() {
+                return Err(format!("server exited during start-up: {}", self.output()));
+            }
+            k += 1;
+            // (a probe every 8 ms; the queue of a worker that is not up yet stays short)
+            if k % 8 == 1 {
+                let nonce = sha512(&[b"first", &k.to_le_bytes(), &self.port.to_le_bytes()])[..64].to_vec();
+                let _ = sock.send_to(&build_request(Proto::Classic, &nonce, 1024, &[], None), self.addr());
+            }
+            std::thread::sleep(Duration::from_millis(1));
+            if matches!(sock.recv_from(&mut buf), Ok((n, _)) if n > 0) {
+                return Ok(());
+            }
+            if Instant::now() > end {
+                return Err(format!("no reply within {:?}; output so far: {}", deadline, self.output()));
+            }
+        }
+    }
+
     /// names of the live threads (from /proc/<pid>/task/*/comm)
     pub fn thread_names(&self) -> Vec<String> {
         let mut v = vec![];
@@ -261,6 +317,23 @@ impl ServerProc {
     }
 
     /// total `drops` over the UDP sockets bound to our port (from /proc/net/udp)
+    /// number of open file descriptors of the server process
+    pub fn fd_count(&self) -> Option<usize> {
+        std::fs::read_dir(format!("/proc/{}/fd", self.child.id())).ok().map(|d| d.count())
+    }
+
+    /// set the soft RLIMIT_NOFILE of the running server (what `ulimit -n` would have given it); false if not possible
+    pub fn set_nofile_soft(&self, soft: u64) -> bool {
+        unsafe {
+            let mut old: libc::rlimit = std::mem::zeroed();
+            if libc::prlimit(self.child.id() as i32, libc::RLIMIT_NOFILE, std::ptr::null(), &mut old) != 0 {
+                return false;
+            }
+            let new = libc::rlimit { rlim_cur: soft.min(old.rlim_max), rlim_max: old.rlim_max };
+            libc::prlimit(self.child.id() as i32, libc::RLIMIT_NOFILE, &new, std::ptr::null_mut()) == 0
+        }
+    }
+
     pub fn udp_drops(&self) -> u64 {
         udp_drops_for_port(self.port)
     }
